@@ -1051,3 +1051,265 @@ class WorklistPaths(LayerPaths):
             return None
         r = self._hyp(v, roles)
         return None if self._elems(r) else r
+
+
+# ---- deepening round: row gates, reader normalisation, lossless keep re-read, tolerated follow-stats --------------------
+_DEEPEN_DOC = """Obligations on the parts of the state machine the decision table takes for granted:
+
+  gate         a success outcome without a callback decision ("newly created") is only taken when the *reader* — the
+               private function whose Option result separates "no layer" from "layer present" — reported None, and the
+               reader reports None only under a negative existence test of the layer directory
+  toml-exists  when the reader reports a layer as present, its content-metadata file exists afterwards: on every path to
+               such a success site the file was read successfully or written (normalisation of "directory without TOML")
+  lossless     the keep path re-reads the file as a type that can hold any metadata table (not the requested type M)
+  follow-stat  between a delete decision and the success site no fallible symlink-following stat is applied to an entry
+               *below* the layer directory while its error can be absorbed by a tolerant wrapper: a dangling link would
+               make "entry vanished" indistinguishable from "layer absent" and the removal stops silently
+"""
+from .lib.effects import VOCAB as _VOCAB
+from .lib.value import vstr
+from .lib.discard import ok_on_success as _ok_on_success
+
+STAT_KINDS = ('STAT_FOLLOW', 'STAT_NOFOLLOW')
+EXISTENCE_TESTS = ('exists', 'is_dir', 'try_exists')
+# metadata types that can represent every TOML table / value (the default `LayerContentMetadata` = GenericMetadata is
+# printed without arguments by the compiler)
+ANY_TOML = ('std::option::Option<toml::map::Map<std::string::String, toml::Value>>',
+            'toml::map::Map<std::string::String, toml::Value>', 'toml::Value', 'std::option::Option<toml::Value>')
+NOFOLLOW_NOT_LINK = {'std::fs::FileType::is_dir': True, 'std::fs::Metadata::is_dir': True,
+                     'std::fs::FileType::is_file': True, 'std::fs::Metadata::is_file': True,
+                     'std::fs::FileType::is_symlink': False, 'std::fs::Metadata::is_symlink': False,
+                     'std::path::Path::is_symlink': False}
+
+
+def _peel(v):
+    while isinstance(v, tuple) and v and v[0] in ('unwrap', 'updated') and len(v) >= 2 and isinstance(v[1], tuple):
+        v = v[1]
+    return v
+
+
+def _ws_call(prog, subj):
+    v = _peel(subj)
+    if isinstance(v, tuple) and len(v) == 4 and v[0] == 'call' and v[1] in prog.fns:
+        return v
+    return None
+
+
+def readers_of(prog, outs, decision_enums):
+    """paths of the private functions whose Option result is `Some` on the outcomes that carry a callback decision"""
+    names = []
+    for o in outs:
+        decs = o.decisions()
+        if not any(c.enum in decision_enums for c, s, lv in decs):
+            continue
+        for c, s, lv in decs:
+            if c.enum == 'std::option::Option' and c.outcome == frozenset(['Some']):
+                call = _ws_call(prog, s)
+                if call is not None and call[1] not in names:
+                    names.append(call[1])
+    return names
+
+
+def gated_by_none(prog, o, readers):
+    """the outcome lies behind `<reader>(..)? == None`"""
+    for c, s, lv in o.decisions():
+        if c.enum == 'std::option::Option' and c.outcome == frozenset(['None']):
+            call = _ws_call(prog, s)
+            if call is not None and call[1] in readers:
+                return True
+    return False
+
+
+def option_kind(v):
+    """'None' | 'Some' for a returned `Ok(None)` / `Ok(Some(..))` / `None` / `Some(..)` literal"""
+    v = _peel(v)
+    if isinstance(v, tuple) and len(v) == 4 and v[0] == 'agg' and v[1] == 'std::result::Result' and v[2] == 'Ok' and len(v[3]) == 1:
+        v = _peel(v[3][0][1])
+    if isinstance(v, tuple) and len(v) == 4 and v[0] == 'agg' and v[1] == 'std::option::Option':
+        return v[2]
+    return None
+
+
+def existence_test(val):
+    """path value when `val` is a boolean existence test (exists / is_dir / try_exists()? / metadata(..).is_ok())"""
+    v = _peel(val)
+    if not (isinstance(v, tuple) and len(v) == 4 and v[0] == 'call' and v[2]):
+        return None
+    if v[1] in _VOCAB and _VOCAB[v[1]][0] in STAT_KINDS and v[1].rsplit('::', 1)[-1] in EXISTENCE_TESTS:
+        return v[2][0]
+    if v[1] == 'std::result::Result::<T, E>::is_ok':
+        x = _peel(v[2][0])
+        if isinstance(x, tuple) and len(x) == 4 and x[0] == 'call' and x[1] in _VOCAB and _VOCAB[x[1]][0] in STAT_KINDS and x[2]:
+            return x[2][0]
+    return None
+
+
+def chain_ok(prog, e, top_fn=None, top_sites=None):
+    """reaching success implies the effect's call succeeded: its Result and the Result of every call on the way down to
+    it is propagated (`?`, returned, unwrap) and never handed to something that turns a failure into a success"""
+    steps = [l.call for l in e.chain if isinstance(l, Link)] + [e.call]
+    for c in steps:
+        if c is None:
+            return False
+        if not (c.dty or '').startswith(('std::result::Result<', 'std::option::Option<')):
+            continue
+        sites = top_sites if (top_fn is not None and c.fn.path == top_fn.path) else None
+        if not _ok_on_success(prog, c.fn, c, sites):
+            return False
+    return True
+
+
+def reader_contexts(prog, sl, entry, reader):
+    """[(call effect, parameter bindings of the reader in the entry's terms)] for the distinct ways the entry calls it"""
+    EV = Effects2(prog, sl, vocab={reader.path: ('READER', None)})
+    out, seen = [], set()
+    for e in EV.expand(entry, 'may'):
+        if e.kind != 'READER' or e.call is None:
+            continue
+        m = EV.call_mapping(e.call.fn, e.call, reader, e.mapping or {})
+        key = tuple(canon(m.get((reader.path, i), ('unknown',))) for i in range(reader.argc))
+        if key in seen:
+            continue
+        seen.add(key)
+        out.append((e, m))
+    return out
+
+
+def reader_report(prog, sl, E, reader, m, LP):
+    """[(subject, status 'holds'|'violated'|'unproven', where, message)] for one calling context of the reader"""
+    res = []
+    where = '%s:%d' % (reader.file, reader.line)
+    n_none = n_some = 0
+    for st in E.sites(reader):
+        v = E._site_value(reader, st, m)
+        kind = option_kind(norm(sl, v)) if v is not None else None
+        tag = 'bb%d' % st.bb
+        if kind is None:
+            res.append(('site-shape', 'unproven', where, 'success site %s of the layer reader returns a value that is neither None nor Some(..): %s'
+                        % (tag, vstr(v)[:120] if v is not None else 'tail call')))
+            continue
+        if kind == 'None':
+            n_none += 1
+            ok, seen_dir = False, False
+            for cd in _conditions(reader, st.bb, sl):
+                if cd.kind != 'bool':
+                    continue
+                for val, oc in cd.views():
+                    pv = existence_test(val)
+                    if pv is None:
+                        if any(LP.classify(E.subst(x, m)) == ('DIR',) for x in walk(val) if isinstance(x, tuple) and x and x[0] == 'call'):
+                            seen_dir = True
+                        continue
+                    if LP.classify(E.subst(pv, m)) == ('DIR',):
+                        seen_dir = True
+                        if oc is False:
+                            ok = True
+            if ok:
+                res.append(('none-gate', 'holds', where, '"no layer" is reported only when the layer directory does not exist'))
+            elif seen_dir:
+                res.append(('none-gate', 'unproven', where, '"no layer" (%s) depends on a test of the layer directory that is not a plain negative existence test' % tag))
+            else:
+                res.append(('none-gate', 'violated', where, '"no layer" is reported (%s) on a path where the layer directory may exist: its contents would survive in a layer reported as newly created' % tag))
+            continue
+        n_some += 1
+        effs = E.expand(reader, 'must', [st.bb], m)
+        hits = [e for e in effs if e.kind in ('READ', 'WRITE') and e.path is not None and LP.classify_effect(e) == ('TOML',)]
+        good = [e for e in hits if chain_ok(prog, e, reader, {st.bb})]
+        if good:
+            res.append(('toml-exists', 'holds', where, 'a layer is reported present only after its content metadata file was %s'
+                        % ('read successfully' if good[0].kind == 'READ' else 'written')))
+        elif hits:
+            res.append(('toml-exists', 'unproven', where, 'the content metadata file is read/written on the way to reporting a layer (%s), but a failure of that operation can end in success' % tag))
+        else:
+            res.append(('toml-exists', 'violated', where, 'a layer is reported present (%s) on a path where its content metadata file was neither read successfully nor written: '
+                        'a layer directory without TOML is not normalised and the keep / metadata writers fail on it' % tag))
+    if not n_none:
+        res.append(('none-gate', 'unproven', where, 'the layer reader has no success site returning None'))
+    if not n_some:
+        res.append(('toml-exists', 'unproven', where, 'the layer reader has no success site returning Some(..)'))
+    return res
+
+
+def lossless_read(prog, base):
+    """(True|False|None, message) — is the value `base` (a call reading a TOML file) deserialised as a type that can hold every
+    metadata table?"""
+    if not (isinstance(base, tuple) and len(base) == 4 and base[0] == 'call' and isinstance(base[3], tuple) and len(base[3]) == 2):
+        return None, 'not a call'
+    fn = prog.fns.get(base[3][0])
+    c = fn.call_at(base[3][1]) if fn is not None else None
+    if c is None or not c.ga:
+        return None, 'type of the value read is unknown'
+    ty = c.ga[0]
+    head = 'libcnb_data::layer_content_metadata::LayerContentMetadata'
+    if ty == head:
+        return True, 'read as LayerContentMetadata<GenericMetadata>'
+    if ty.startswith(head + '<') and ty.endswith('>'):
+        arg = ty[len(head) + 1:-1]
+        if arg in ANY_TOML:
+            return True, 'read as LayerContentMetadata<%s>' % arg
+        return False, 'metadata is re-read as %s: keys that type does not model are dropped from a layer reported as restored' % arg
+    if ty in ANY_TOML:
+        return True, 'read as ' + ty
+    return None, 'read as ' + ty
+
+
+def unroll_recursion(E, effs):
+    """effects of one more level of every recursive call among `effs`: the recursive call's arguments (an entry of the
+    directory being emptied) bound to the function's parameters, so that what the function does to its parameter is also
+    seen on the classes of paths it hands to itself"""
+    out = []
+    for e in effs:
+        if e.kind != 'RECURSION' or not e.chain:
+            continue
+        l = e.chain[-1]
+        if not isinstance(l, Link) or l.call.indirect:
+            continue
+        inside = {x.call.fn.path for x in e.chain if isinstance(x, Link)}
+        for g in E.prog.callee_fns(l.call):
+            if g.path not in inside:
+                continue
+            m = E.call_mapping(l.call.fn, l.call, g, l.mapping or {})
+            out.extend(x for x in E.expand(g, 'may', None, m, e.chain) if x.kind != 'RECURSION')
+    return out
+
+
+def nested_follow_stats(prog, sl, effs, classify, E=None):
+    """[(effect, verdict 'violated'|'unproven', message)] for fallible symlink-following stats on entries strictly below the
+    layer directory whose failure can be absorbed on the way to success"""
+    out, seen = [], set()
+    if E is not None:
+        effs = list(effs) + unroll_recursion(E, effs)
+    for e in effs:
+        if e.kind != 'STAT_FOLLOW' or e.call is None or e.path is None:
+            continue
+        if not (e.call.dty or '').startswith('std::result::Result<'):
+            continue
+        k = classify(e)
+        if k is None or k[0] not in ('SUB', 'CHILD'):
+            continue
+        key = (e.call.fn.path, e.call.bb)
+        if key in seen:
+            continue
+        seen.add(key)
+        if chain_ok(prog, e):
+            continue     # the error is reported: not a silent leftover
+        # a dominating no-follow test of the same path that excludes a symbolic link makes the stat harmless
+        fn = e.call.fn
+        pv = canon(_peel(sl.operand(fn, e.call.args[0]))) if e.call.args else None
+        verdict = 'violated'
+        for cd in _conditions(fn, e.call.bb, sl):
+            if cd.kind != 'bool':
+                continue
+            for val, oc in cd.views():
+                for x in walk(val):
+                    if not (isinstance(x, tuple) and len(x) == 4 and x[0] == 'call' and x[1] in NOFOLLOW_NOT_LINK):
+                        continue
+                    src = [y for y in walk(x) if isinstance(y, tuple) and len(y) == 4 and y[0] == 'call' and y[1] in _VOCAB
+                           and _VOCAB[y[1]][0] == 'STAT_NOFOLLOW' and y[2] and canon(_peel(y[2][0])) == pv]
+                    if src or (x[1] == 'std::path::Path::is_symlink' and x[2] and canon(_peel(x[2][0])) == pv):
+                        verdict = 'holds' if (val is x or _peel(val) == x) and oc == NOFOLLOW_NOT_LINK[x[1]] else 'unproven'
+        if verdict != 'holds':
+            out.append((e, verdict, '%s follows symbolic links on an entry below the layer directory (%s) and its error is absorbed (%s): '
+                        'a dangling link ends the removal early while the layer is reported empty'
+                        % (e.call.name, vstr(e.path)[:80], e.via())))
+    return out
